@@ -18,6 +18,7 @@ import (
 	"github.com/EliCDavis/polyform/formats/obj"
 	"github.com/EliCDavis/polyform/formats/ply"
 	"github.com/EliCDavis/polyform/formats/splat"
+	"github.com/EliCDavis/polyform/formats/spz"
 	"github.com/EliCDavis/polyform/formats/stl"
 	"github.com/EliCDavis/polyform/math/geometry"
 	"github.com/EliCDavis/polyform/math/mat"
@@ -38,6 +39,7 @@ import (
 	"verif/harness/ctwin"
 	"verif/harness/meshlib"
 	"verif/harness/props/c01"
+	"verif/harness/props/c15"
 	ml "verif/harness/props/meshopslib"
 )
 
@@ -53,7 +55,7 @@ func init() {
 	reg("C05T", func() []ctwin.Family { return []ctwin.Family{objFamily()} })
 	reg("C06T", func() []ctwin.Family { return []ctwin.Family{gltfFamily()} })
 	reg("C07T", func() []ctwin.Family { return []ctwin.Family{stlFamily()} })
-	reg("C15T", func() []ctwin.Family { return []ctwin.Family{splatFamily()} })
+	reg("C15T", func() []ctwin.Family { return []ctwin.Family{splatFamily(), spzFamily()} })
 	reg("C09T", func() []ctwin.Family { return []ctwin.Family{marchFamily()} })
 	reg("C02T", meshopsFamilies)
 	reg("C03T", meshopsFamilies)
@@ -267,6 +269,23 @@ func splatFamily() ctwin.Family {
 			h.err(err)
 			if err == nil {
 				h.u64(meshlib.QuickHash(back))
+			}
+			return h.h
+		}})
+	}
+	return f
+}
+
+func spzFamily() ctwin.Family {
+	f := ctwin.Family{Name: "spz.Read", Site: "spz.Read"}
+	for i, data := range c15.TwinSpzStreams() {
+		data := data
+		f.Thunks = append(f.Thunks, ctwin.Thunk{Name: fmt.Sprintf("stream %d (%d bytes)", i, len(data)), Run: func() uint64 {
+			h := newHasher()
+			cloud, err := spz.Read(bytes.NewReader(data))
+			h.err(err)
+			if err == nil {
+				h.u64(meshlib.QuickHash(cloud.Mesh))
 			}
 			return h.h
 		}})
